@@ -61,6 +61,18 @@ class SchemaGen:
         if r.random() < 0.4:
             obj[r.choice(['custom', 'x-attr', 'meta_1', 'java-class'])] = r.choice(
                 [1, 'v', True, None, [1, 'two', {'k': []}], {'nested': {'a': 1.5}}, 'q"\\'])
+        if r.random() < 0.15:
+            # a custom attribute whose key is structural for OTHER kinds of schema (never for this one)
+            t = obj.get('type')
+            own = {'record': ('fields',), 'enum': ('symbols', 'default'), 'fixed': ('size',), 'array': ('items',), 'map': ('values',)}.get(t if isinstance(t, str) else None, ())
+            pool = [k for k in ('precision', 'scale', 'size', 'symbols', 'items', 'values', 'fields') if k not in own]
+            if obj.get('logicalType') == 'decimal':
+                pool = [k for k in pool if k not in ('precision', 'scale')]
+            if t == 'record':
+                pool = [k for k in pool if k not in ('symbols', 'size')] + ['symbols', 'size']
+            k = r.choice(pool)
+            if k not in obj:
+                obj[k] = r.choice([3, 'w', [1], {'z': None}])
         return obj
 
     def name_obj(self, base, ns_ctx):
